@@ -491,6 +491,17 @@ func (v *c11Impl) exec(op string) (out string, extra []string) {
 				res = "err clean"
 			}
 		}
+	case "roll":
+		// what a cleaner tick does to an active segment that is full or old enough: a new, EMPTY active segment
+		if p := v.part(); p != nil && !p.IsPaused() {
+			l := p.log
+			if g, ok := l.(*c11GatedLog); ok {
+				l = g.CommitLog
+			}
+			if err := commitlog.VerifRoll(l); err != nil {
+				res = "err roll " + err.Error()
+			}
+		}
 	case "leader":
 		v.s.cursors.BecomePartitionLeader()
 	case "evict":
@@ -1058,8 +1069,15 @@ func c11Random(rnd *vRand, it int, thorough bool) []string {
 			prog = append(prog, fmt.Sprintf("set %s %d", ref(), offset()))
 		case x < 72:
 			prog = append(prog, "get "+ref())
-		case x < 82:
+		case x < 78:
 			prog = append(prog, "clean")
+		case x < 82:
+			// a cleaner tick: the active segment is rolled (it stays EMPTY until the next set), often followed by the
+			// compaction of the sealed segments and a fetch that has to scan the log
+			prog = append(prog, "roll")
+			if rnd.Bool() {
+				prog = append(prog, "clean", "evict", "get "+ref())
+			}
 		case x < 87:
 			prog = append(prog, "evict")
 		case x < 90:
